@@ -36,8 +36,9 @@ namespace sqf::opcodes
                 return;
             }
             else if (right_value->is<sqf::types::t_nothing>())
-            {
+            { // an operator given nil yields nil: the enclosing expression still gets its operand
                 vm.__logmsg(logmessage::runtime::NilValueFoundForRightArgumentWeak(diag_info()));
+                context.push_value({});
                 return;
             }
             
